@@ -13,6 +13,11 @@ Stages:
      orthogonal and dyadic diag(R0), so that every square root met is exact in vq::Q and the theorems
      C16_qr_factorize_correct / C16_qr_solve_* apply literally: Q R = A, Q'Q = I, R upper triangular,
      R'R = A'A, normal equations / A x = b and x in the row space;
+  2c. QR object reuse (ops qrseq / qrseqf, d.qrseq / d.qrseqf; model coq/QrObj.v): sequences of compute / factorize /
+     solve calls of different shapes and storage orders on ONE QR object (tall, square, wide; wide after a longer work
+     vector; the same wide shape again; computed = true after solve / compute / factorize / the caller's own transposed
+     compute): each call's output vs the extracted object model (stage 1, exact), vs the same call on a fresh object
+     (exact: digit for digit, double: bit for bit), and the stage 2b / 3 oracles on every factorize / solve of a sequence;
   3. double build (tested, not proved): d.qr / d.qr2 / d.qrsolve / d.inv / d.sky outputs are exact
      binary64 values printed as rationals; residual oracles in exact rational arithmetic below with
      tolerance 1e-10 * scale.
@@ -31,10 +36,14 @@ ASSUMPTIONS = [
     "assert() in detail::inverse is active (no NDEBUG); it is mapped to the outcome 'EXC assert'",
     "QR: A = QR / Q'Q = I / least-squares / minimum-norm are PROVED for the model Qr.v over any field with a true square root (closed at R); the exact QR<vq::Q> run (pseudo-root) ties the code to the model digit for digit; on inputs whose column norms are squares of dyadic rationals the pseudo-root is exact and the proved identities are checked on the implementation's output in exact arithmetic; for general inputs they are TESTED in binary64 with tolerance 1e-10*scale",
     "complex value types are not instantiated; block value types only through static_matrix<vq::Q,b,b>",
+    "QR object reuse: the array a QR object's pointer r refers to stays alive and unmodified until the next compute / factorize / solve(computed = false) "
+    "(the model QrObj.v keeps its content in the object state); Q(i,j) / R(i,j) are read right after factorize() only; shapes have no zero dimension",
 ]
 TRUSTED_BASE = [
     "harness/drv_direct.cpp turns __assert_fail into an outcome with longjmp (glibc symbol interposition)",
     "python-side exact rational residual oracles for the double build and for the exact perfect-square QR family (tools/props/C16.py)",
+    "harness/drv_direct.cpp QrSeq: one detail::QR object per sequence, all arrays of a sequence kept alive; a 'fresh object' for a computed = true call is a "
+    "fresh object on which the establishing call has been repeated",
 ]
 RULE = ("cases derived from VERIF_SEED by tools/props/C16.py: exhaustive small sparsity patterns x value palettes + random; "
         "distinct = distinct case payload; non-trivial = implementation output contains a non-zero value and is not an exception")
@@ -394,6 +403,87 @@ def sq_cases(r, tier, add):
         if m2 >= n2 and it % 2 == 0:
             add("qrsolvec", "%d %d %d %s %s" % (o2, m2, n2, fmt_vec(flat(a2, o2)), fmt_vec(b2)), dict(a=a2, b=b2, kind="full", sq=True))
 
+# ---- QR object reuse: sequences of compute / factorize / solve calls on ONE QR object ----------------------------
+# model: coq/QrObj.v (every data member of detail::QR is part of the object state); theorems C16_qr_solve_any_object,
+# C16_qr_solve_junk_independent, C16_qr_solve_computed, C16_qr_solve_again, C16_qr_factorize_any_object.
+# ops qrseq / d.qrseq (one object) and qrseqf / d.qrseqf (a fresh object per call), same payload:
+#   <ncalls> ( F ord m n A | C ord m n A | W ord m n A | S ord m n A b | T b )*      (see harness/drv_direct.cpp)
+def _seq_matrix(r, mode, m, n, for_solve):
+    """(matrix, kind) of shape m x n for a call of a sequence"""
+    if mode == "sq":
+        kind = "full" if for_solve else r.choice(["full", "full", "lastzero", "upper"])
+        if m >= n or not for_solve: return sq_matrix(r, m, n, kind), kind
+        return _tr(sq_matrix(r, n, m, "full")), "full"      # wide systems: solve factorises A', so A' must be Q0 R0
+    kind = r.choice(["full", "full", "full", "full", "zerocol", "rankdef"]) if mode == "exact" else "full"
+    return dense(r, m, n, kind, dy=(mode == "dbl")), kind
+
+def _seq_shape(r, mx, want=None):
+    want = want or r.choice(["wide", "wide", "tall", "square", "any"])
+    m = r.randint(1, mx); n = r.randint(1, mx)
+    if want == "wide":
+        if mx < 2: return 1, 1
+        m = r.randint(1, mx - 1); n = r.randint(m + 1, mx)
+    elif want == "tall": m, n = max(m, n), min(m, n)
+    elif want == "square": n = m
+    return m, n
+
+def qrseq_plan(r, mx):
+    """list of (kind, m, n) with kind in F C W S T; T refers to the last non-T call and is only planned where
+    solve(..., computed = true) is a legal use: after S (any shape), after C / F with m >= n, after W (m < n)"""
+    tpl = r.random()
+    plan = []
+    if tpl < 0.15:      # wide after something with a longer work vector (larger tall / square / wide system)
+        m, n = _seq_shape(r, mx, "wide")
+        big = max(m, n) + r.randint(0, max(0, mx - max(m, n)))
+        m0, n0 = r.choice([(big, r.randint(1, big)), (big, big), (r.randint(1, big), big)])
+        plan = [("S", m0, n0), ("S", m, n)]
+    elif tpl < 0.3:     # the same wide shape again: with and without computed = true
+        m, n = _seq_shape(r, mx, "wide")
+        plan = [("S", m, n), r.choice([("S", m, n), ("T", m, n)]), r.choice([("S", m, n), ("T", m, n)])]
+    elif tpl < 0.4:     # the caller's own factorisation of a wide system, then solves with computed = true
+        m, n = _seq_shape(r, mx, "wide")
+        plan = [("S",) + _seq_shape(r, mx), ("W", m, n), ("T", m, n), ("T", m, n)]
+    elif tpl < 0.5:     # compute / factorize, then computed = true
+        m, n = _seq_shape(r, mx, r.choice(["tall", "square"]))
+        plan = [("S",) + _seq_shape(r, mx, "wide"), (r.choice(["C", "F"]), m, n), ("T", m, n), ("S",) + _seq_shape(r, mx, "wide"), ("T", 0, 0)]
+    else:
+        for _ in range(r.randint(2, 5)):
+            last = next((c for c in reversed(plan) if c[0] != "T"), None)
+            can_t = last is not None and (last[0] == "S" or (last[0] in ("C", "F") and last[1] >= last[2]) or last[0] == "W")
+            k = r.choices(["S", "T", "F", "C", "W"], [50, 25 if can_t else 0, 12, 7, 8])[0]
+            if k == "T": plan.append(("T", 0, 0))
+            elif k == "W": plan.append(("W",) + _seq_shape(r, mx, "wide"))
+            else: plan.append((k,) + _seq_shape(r, mx))
+    return plan
+
+def qrseq_cases(r, tier, add):
+    quick = tier == "quick"
+    for mode in ("exact", "sq", "dbl"):
+        N = {"exact": 40 if quick else 300, "sq": 60 if quick else 400, "dbl": 150 if quick else 1500}[mode]
+        mx = {"exact": 4 if quick else 5, "sq": 5 if quick else 6, "dbl": 6 if quick else 10}[mode]
+        for it in range(N):
+            toks = []; seq = []; est = None
+            plan = qrseq_plan(r, mx)
+            for (k, m, n) in plan:
+                if k == "T":
+                    b = [dyq(r) if mode == "dbl" else gen.rq(r) for _ in range(est["m"])]
+                    toks.append("T %s" % fmt_vec(b)); seq.append(dict(k="T", a=est["a"], b=b, kind=est["kind"]))
+                    continue
+                order = r.randrange(2)
+                a, kind = _seq_matrix(r, mode, m, n, for_solve=(k in "SW"))
+                est = dict(k=k, a=a, m=m, n=n, kind=kind)
+                c = "%s %d %d %d %s" % (k, order, m, n, fmt_vec(flat(a, order)))
+                b = None
+                if k == "S":
+                    b = [dyq(r) if mode == "dbl" else gen.rq(r) for _ in range(m)]
+                    c += " " + fmt_vec(b)
+                toks.append(c); seq.append(dict(k=k, a=a, b=b, kind=kind))
+            payload = "%d %s" % (len(toks), " ".join(toks))
+            pfx = "d." if mode == "dbl" else ""
+            add(pfx + "qrseq", payload, dict(seq=seq, sq=(mode == "sq"), mode=mode))
+            add(pfx + "qrseqf", payload, dict(seq=seq, sq=(mode == "sq"), mode=mode, fresh_twin=True))
+
+
 def dbl_cases(r, tier, add):
     quick = tier == "quick"
     for it in range(100 if quick else 800):
@@ -424,6 +514,7 @@ def cases(tier, seed):
     sky_cases(r, tier, add); skyb_cases(r, tier, add); cm_cases(r, tier, add); inv_cases(r, tier, add)
     sm_cases(r, tier, add); qr_cases(r, tier, addm, True); qr_cases(r, tier, addm, False); dbl_cases(r, tier, addm)
     sq_cases(random.Random(seed * 1000 + 1616), tier, addm)     # own stream: the older families keep their cases
+    qrseq_cases(random.Random(seed * 1000 + 161616), tier, addm)
     return out, meta
 
 # ------------------------------------------------------------------ double-build oracles (exact rational arithmetic)
@@ -612,7 +703,8 @@ def run(ctx, cases_override=None):
     # 1. exact correspondence
     # one driver run per op family: a crash (memory corruption) in one kernel does not take the others down
     FAM = {"sky": "Direct.v", "sky_t": "Direct.v", "cm": "CuthillMcKee.v", "inv": "Inverse.v", "sminv": "Inverse.v/StaticMat.v",
-           "sm": "StaticMat.v", "smident": "StaticMat.v", "qr": "Qr.v", "qr2": "Qr.v", "qrsolve": "Qr.v", "qrsolvec": "Qr.v", "smr": "StaticMat.v"}
+           "sm": "StaticMat.v", "smident": "StaticMat.v", "qr": "Qr.v", "qr2": "Qr.v", "qrsolve": "Qr.v", "qrsolvec": "Qr.v", "smr": "StaticMat.v",
+           "qrseq": "QrObj.v", "qrseqf": "QrObj.v"}
     impl = {}; model = {}
     for fam in sorted(set(FAM.values())):
         sub = [l for l in exact if FAM.get(l.split(" ", 2)[1]) == fam]
@@ -738,6 +830,48 @@ def run(ctx, cases_override=None):
             fails.append(dict(kind="counterexample", case=l, impl=out[:2000], model=(model.get(cid) or "")[:2000], op=op, size=len(l),
                               oracle=dict(op="sq." + op, result=msg),
                               theorem="C16 exact QR oracle on QR<vq::Q> output (perfect-square input, %s): %s" % (op, msg)))
+
+    # 2c. QR object reuse: every call of a sequence on ONE object gives what a fresh object gives (implementation vs
+    #     implementation, exact: digit for digit; double: bit for bit), and each factorize / solve of a sequence satisfies
+    #     the proved identities (perfect-square family: exactly; double build: tolerance of stage 3)
+    def seq_items(out): return [x.strip() for x in out.split(" ; ")]
+    for l in exact + implonly:
+        cid, op, payload = l.split(" ", 2)
+        if op not in ("qrseq", "d.qrseq", "qrseqf", "d.qrseqf"): continue
+        mt = meta.get(cid)
+        out = impl.get(cid) if cid in impl else impl2.get(cid)
+        if out is None or mt is None or out.startswith(("CRASH", "UNSUPPORTED", "EXC")): continue      # reported above
+        dbl = op.startswith("d.")
+        if mt.get("fresh_twin"):
+            tid = "c%d" % (int(cid[1:]) - 1)
+            tout = impl.get(tid) if tid in impl else impl2.get(tid)
+            ctx["stats"]["oracle_checks"] += 1
+            if tout is not None and not tout.startswith(("CRASH", "UNSUPPORTED", "EXC")) and tout != out:
+                a_, b_ = seq_items(tout), seq_items(out)
+                k_ = next((i for i in range(min(len(a_), len(b_))) if a_[i] != b_[i]), min(len(a_), len(b_)))
+                msg = "call %d (%s) of the sequence on ONE object differs from the same call on a fresh object" % (k_, mt["seq"][k_]["k"] if k_ < len(mt["seq"]) else "?")
+                fails.append(dict(kind="counterexample", case=byid.get(tid, l), impl=tout[:3000], model=out[:3000], op=op[:-1], size=len(l),
+                                  oracle=dict(op="reuse." + op, result=msg),
+                                  theorem="C16 QR object reuse (C16_qr_solve_junk_independent / C16_qr_solve_computed / C16_qr_factorize_any_object): %s" % msg))
+        if not (dbl or mt.get("sq")): continue
+        items = seq_items(out)
+        if len(items) != len(mt["seq"]):
+            fails.append(dict(kind="counterexample", case=l, impl=out[:2000], model=(model.get(cid) or "")[:2000], op=op, size=len(l),
+                              theorem="C16 QR sequence: one result per call")); continue
+        for k_, (c, o_) in enumerate(zip(mt["seq"], items)):
+            if c["k"] in ("C", "W"): continue
+            msg = None
+            ctx["stats"]["oracle_checks"] += 1
+            if c["k"] == "F":
+                msg = (check_dqr if dbl else check_sq_qr)(l, o_, dict(a=c["a"]))
+            else:
+                x_ = split_top(o_)[0] if c["k"] == "S" else o_
+                if dbl: msg = check_dqrsolve(l, x_, dict(a=c["a"], b=c["b"]))
+                elif c["kind"] == "full": msg = check_sq_solve(l, x_, dict(a=c["a"], b=c["b"]))
+            if msg:
+                fails.append(dict(kind="counterexample", case=l, impl=out[:3000], model=(model.get(cid) or "")[:3000] if not dbl else None, op=op, size=len(l),
+                                  oracle=dict(op=("d." if dbl else "sq.") + "qrseq", result="call %d (%s): %s" % (k_, c["k"], msg)),
+                                  theorem="C16 QR oracle on call %d (%s) of a sequence on %s: %s" % (k_, c["k"], "a fresh object per call" if mt.get("fresh_twin") else "ONE object", msg)))
 
     # 3. double build: residual oracles
     for l in implonly:
